@@ -526,6 +526,61 @@ def r5b_assoc_consts(toks, log):
         out.append(t); i += 1
     return out
 
+def r20_ghost_thread(toks, log, cfg):
+    """R20: interior-mutable state reached through `&self` (the salt replay cache behind a Mutex) cannot be described by a
+    Verus contract; it is threaded explicitly as a ghost token instead.  cfg = {"param": "Tracked(vcache): Tracked<&mut SaltCache>",
+    "arg": "Tracked(vcache)", "defs": [fn names that receive the extra parameter], "calls": {method name: null | [accepted first-argument texts]}}.
+    The parameter is appended to the listed definitions and the argument to every listed method call, wherever the call stands."""
+    out = list(toks)
+    i = 0
+    while i < len(out):
+        t = out[i]
+        # definitions
+        if t.kind == "id" and t.text == "fn" and i + 1 < len(out) and out[i + 1].text in cfg.get("defs", []):
+            j = i + 2
+            if out[j].text == "<":
+                d = 0
+                while True:
+                    if out[j].text == "<": d += 1
+                    elif out[j].text == ">":
+                        d -= 1
+                        if d == 0: break
+                    j += 1
+                j += 1
+            if out[j].text == "(":
+                c = match_close(out, j)
+                k = c - 1
+                ins = gen((", " if out[k].text != "," else " ") + cfg["param"], out[k], "")
+                out[c:c] = ins
+                log.add("R20", out[i + 1], "fn %s: ghost parameter" % out[i + 1].text)
+                i = c + len(ins)
+                continue
+        # calls  `. name (`
+        if t.text == "." and i + 2 < len(out) and out[i + 1].kind == "id" and out[i + 1].text in cfg.get("calls", {}) and out[i + 2].text == "(":
+            name = out[i + 1].text
+            c = match_close(out, i + 2)
+            firsts = cfg["calls"][name]
+            ok = True
+            if firsts:
+                # text of the first argument
+                k = i + 3
+                d = 0
+                first = []
+                while k < c and not (out[k].text == "," and d == 0):
+                    if out[k].text in OPEN: d += 1
+                    elif out[k].text in (")", "]", "}"): d -= 1
+                    first.append(out[k].text); k += 1
+                ok = "".join(first) in firsts
+            if ok:
+                k = c - 1
+                ins = gen((", " if (c > i + 3 and out[k].text != ",") else " ") + cfg["arg"], out[k], "")
+                out[c:c] = ins
+                log.add("R20", out[i + 1], "call %s: ghost argument" % name)
+                i = i + 3
+                continue
+        i += 1
+    return out
+
 def apply_item_rewrites(toks, log, opts=None):
     opts = opts or {}
     toks = r6_derives_and_attrs(toks, log, opts.get("derives"))
@@ -542,6 +597,8 @@ def apply_item_rewrites(toks, log, opts=None):
     toks = r16_pattern_params(toks, log)
     toks = r16b_closure_wildcards(toks, log)
     toks = r12_bytes(toks, log)
+    if opts.get("ghost_thread"):
+        toks = r20_ghost_thread(toks, log, opts["ghost_thread"])
     if opts.get("inherent"):
         toks = r8_inherent(toks, log, opts.get("assoc"))
         if opts.get("rename"):
